@@ -1,6 +1,6 @@
 (* FlowStmts.v — C14: soundness of the optimality certificate for min-cost circulations with bounds
    (weak duality / complementary slackness). Proof in FlowFacts.v. *)
-From RS Require Import Base Network Flow.
+From RS Require Import Base Network Tour Flow.
 
 (* If a feasible circulation f satisfies complementary slackness w.r.t. some node potentials (checked by the
    executable [check_optimal]), then no feasible circulation is cheaper. *)
@@ -33,3 +33,41 @@ Definition stmt_spawning_cost_prefix_zero : Prop :=
     let P := nw_params nw in
     c_staff P = 0 -> c_service P = 0 -> c_maint P = 0 -> c_dh P = 0 -> c_idle P = 0 ->
     spawning_cost_prefix nw ty slots = 0.
+
+(** ** "Every flow unit is decoded into exactly one tour" — what a passing [is_decomposition] means *)
+Definition visits (tours : list (list node_id)) (n : node_id) : Z :=
+  z_sum (map (fun t => Z.of_nat (length (filter (nid_eqb n) t))) tours).
+Definition tours_from (nw : network) (tours : list (list node_id)) (d : Z) : Z :=
+  Z.of_nat (length (filter (fun t => match t with s :: _ => match nd nw s with NStart dd => dn_depot dd =? d | _ => false end
+                                                  | [] => false end) tours)).
+(* the node codes of the flow network are pairwise distinct for the nodes it is built from *)
+Definition codes_distinct (nw : network) (ty : Z) (slots : list (node_id * Z)) : Prop :=
+  NoDup (map nid_idx (service_nodes nw ty ++ map fst slots)) /\ NoDup (map fst (nw_depots nw)).
+(* the tours are over nodes of the network of this type: depots only at the ends *)
+Definition tours_shape (nw : network) (ty : Z) (slots : list (node_id * Z)) (tours : list (list node_id)) : Prop :=
+  forall t, In t tours ->
+    exists sd ed mid, t = sd :: mid ++ [ed] /\ is_start_depot (nd nw sd) = true /\ is_end_depot (nd nw ed) = true /\
+      forall n, In n mid -> In n (service_nodes nw ty) \/ In n (map fst slots).
+
+(* in a decomposition every service trip is visited as often as its node edge carries flow, hence (feasibility) at
+   least min(required, limit) and at most limit times; every allotted slot exactly its allotted number of times;
+   and from every depot start as many tours as its depot edge carries flow *)
+Definition stmt_decomposition_covers : Prop :=
+  forall nw ty slots f tours,
+    let net := build_flow_network nw ty slots in
+    codes_distinct nw ty slots -> tours_shape nw ty slots tours ->
+    feasible net f = true -> is_decomposition nw net f tours = true ->
+    (forall s, In s (service_nodes nw ty) ->
+       let mf := match maximal_formation_count_for nw s with Some l => l | None => 100 end in
+       Z.min (number_of_vehicles_required_to_serve nw ty s) mf <= visits tours s <= mf) /\
+    (forall m c, In (m, c) slots -> NoDup (map fst slots) -> visits tours m = c) /\
+    (forall d, In d (depot_ids nw) -> tours_from nw tours d <= capacity_of nw d ty).
+
+(* the cost of a decomposed flow is the spawning cost per tour plus the tours' operating costs as Tour computes them *)
+Definition stmt_flow_cost_is_tour_cost : Prop :=
+  forall nw ty slots f tours,
+    let net := build_flow_network nw ty slots in
+    codes_distinct nw ty slots -> tours_shape nw ty slots tours ->
+    feasible net f = true -> is_decomposition nw net f tours = true ->
+    flow_cost net f =
+      spawning_cost nw ty slots * Z.of_nat (length tours) + z_sum (map (fun t => compute_costs nw t) tours).
